@@ -619,7 +619,7 @@ func runCase(c Case) (string, bool) {
 			}
 		}
 		var got []logEntry
-		for _, e := range h.conn.Log()[start:] {
+		for _, e := range h.conn.LogFrom(start) {
 			switch e.Kind {
 			case "pub":
 				got = append(got, logEntry{"pub", e.Subject, string(e.Data)})
